@@ -26,11 +26,15 @@ Judge(o) ==
        ELSE LET bad == RefBad(fn, call)
                 exp == RefResult(fn, call)
                 m == ImplCall(fn, call)
+                \* a known deviation excuses only what the model of the deviating mechanism reproduces exactly:
+                \* the same diagnostics and the same inferred value
+                asmodel == o.nia = m.nia /\ o.nic = m.nic /\ o.inferred = m.inferred
+                excused == Excused(fn, call, real) /\ asmodel
             IN /\ Chk(bad \/ (exp.raised = o.real.raised /\ (exp.raised \/ exp.o = o.real.o)), o.tid, "oracle:result")
                /\ Chk(DiagnosisOK(fn, call, real), o.tid,
-                      IF Excused(fn, call, real) THEN "dev:" \o DevClass(fn, call) ELSE "viol:Diagnosis")
+                      IF excused THEN "dev:" \o DevClass(fn, call) ELSE "viol:Diagnosis")
                /\ Chk(ResultOK(fn, call, real, o.real), o.tid,
-                      IF Excused(fn, call, real) THEN "dev:" \o DevClass(fn, call) ELSE "viol:ResultInInferred")
+                      IF excused THEN "dev:" \o DevClass(fn, call) ELSE "viol:ResultInInferred")
                /\ Chk(SolutionOK(fn, call, real), o.tid, "viol:SolutionFitsArguments")
                /\ Chk(o.nia = m.nia /\ o.nic = m.nic, o.tid, "drift:diagnostics")
                /\ Chk(o.inferred = m.inferred, o.tid, "drift:inferred")
